@@ -10,10 +10,14 @@ Definition po0 : addr -> N := fun _ => 0.
     manifest M: root [30] over the file root [20] (edges [30] [20]), same data chunks as B *)
 Definition rA : addr := [10]. Definition rB : addr := [20]. Definition rM : addr := [30].
 Definition x1 : addr := [1]. Definition x2 : addr := [2]. Definition x3 : addr := [3].
+Definition rS : addr := [40]. Definition rN : addr := [50].
+(** S: a one-chunk file (its root is its only data chunk); N: a manifest over S *)
 Definition cat0 : catalogue :=
   [ (rA, {| f_leaves := [x1; x2]; f_edges := [rA] |});
     (rB, {| f_leaves := [x1; x3]; f_edges := [rB] |});
-    (rM, {| f_leaves := [x1; x3]; f_edges := [rB; rM] |}) ].
+    (rM, {| f_leaves := [x1; x3]; f_edges := [rB; rM] |});
+    (rS, {| f_leaves := [rS]; f_edges := [rS] |});
+    (rN, {| f_leaves := [rS]; f_edges := [rS; rN] |}) ].
 
 Definition req (t : N) (root a : addr) := GLs (OPut t PRequest (Some root) [(a, [t])]).
 Definition up (t : N) (a : addr) := GLs (OPut t PUpload None [(a, [t])]).
@@ -35,8 +39,8 @@ Definition w_root := [req 1 rA rA; GReg rA; req 2 rA x1; req 3 rA x2; uppin 4 rA
 Definition w_del_unreg := [up 1 x1; up 2 x3; up 3 rB; up 4 rM; GReg rM].
 (** C16: B registered as well (a peer asked for it): its root, an inner chunk of M, is removed unconditionally *)
 Definition w_del_root := [up 1 x1; up 2 x3; up 3 rB; up 4 rM; GReg rM; GReg rB].
-(** C16: the same through eviction: B cached, M uploaded over it *)
-Definition w_gc_root := [req 1 rB rB; GReg rB; req 2 rB x1; req 3 rB x3; up 4 rM; GReg rM; GGcBegin 1 10000].
+(** C16: the same through eviction: the one-chunk file S is cached, the manifest N over it uploaded *)
+Definition w_gc_root := [req 1 rS rS; GReg rS; up 2 rN; GReg rN; GGcBegin 0 10000].
 
 Definition readable (cat : catalogue) (s : state) (r : addr) : bool :=
   match cat_get cat r with
